@@ -148,8 +148,13 @@ func c15RunSeq(ops []c15Op, size int) (string, string) {
 					returned = true
 				})
 				pending = true
+				// let the request run until it returns or really blocks inside Get
+				mcrt.Settle()
 			}
 			if pending {
+				if o.kind != 2 {
+					mcrt.Settle() // a blocked Get reacts to the operation before the next one is issued
+				}
 				expectReturn(where)
 			}
 		}
@@ -245,6 +250,7 @@ func c15Concurrent(r *ev.Reporter) {
 		{"1 adder x 2 cmds + marker(1.1), 1 getter, batch 1, canceller", 1, [][]cmdID{{{1, 1}, {1, 2}}}, []cmdID{{1, 1}}, []int{2}, true},
 		{"1 adder x 1 cmd, 1 getter, batch 2, canceller", 2, [][]cmdID{{{1, 1}}}, nil, []int{1}, true},
 		{"2 adders x 2 cmds, 2 getters x 1 get, batch 2", 2, [][]cmdID{{{1, 1}, {1, 2}}, {{2, 1}, {2, 2}}}, nil, []int{1, 1}, false},
+		{"adders (1.1,1.2 | 2.1) + marker(1.1), 1 getter, batch 2", 2, [][]cmdID{{{1, 1}, {1, 2}}, {{2, 1}}}, []cmdID{{1, 1}}, []int{1}, false},
 	}
 	var summary []string
 	for _, sc := range scen {
